@@ -113,6 +113,41 @@ def f_re_row(a):
     return eb(getattr(spec["regex"], a[1])(dec(a[2])) is not None)
 
 
+def f_bic_new(a):
+    return guard(lambda: enc(str(BIC(dec(a[0]), allow_invalid=b(a[1]), enforce_swift_compliance=b(a[2])))))
+
+
+def f_bic_validate(a):
+    return guard(lambda: eb(BIC(dec(a[0]), allow_invalid=True).validate(b(a[1]))))
+
+
+def f_bic_is_valid(a):
+    return guard(lambda: eb(BIC(dec(a[0]), allow_invalid=True).is_valid))
+
+
+def f_bic_formatted(a):
+    return enc(BIC(dec(a[0]), allow_invalid=True).formatted)
+
+
+def f_bic_parts(a):
+    x = BIC(dec(a[0]), allow_invalid=True)
+    return encl([x.bank_code, x.country_code, x.location_code, x.branch_code])
+
+
+def f_re_bic(a):
+    import schwifty.bic as bicmod
+    rx = bicmod._bic_swift_re if b(a[0]) else bicmod._bic_iso9362_re
+    return eb(getattr(rx, a[1])(dec(a[2])) is not None)
+
+
+def f_spec_bic_accept(a):
+    try:
+        BIC(dec(a[0]), enforce_swift_compliance=b(a[1]))
+        return "1"
+    except Exception:  # noqa: BLE001
+        return "0"
+
+
 # property oracles: the implementation side of a spec comparison
 def f_spec_iban_accept(a):
     try:
